@@ -12,6 +12,21 @@ def contracts():
                        ensures=["result == spec.if_spec(args)"], raises=[], result="str"))
     cs.append(Contract(target="parserfns:ifeq_fn", prop="C04", mode="value", params=dict(PF),
                        ensures=["result == spec.ifeq_spec(args)"], raises=[], result="str"))
+    # #switch: per-iteration obligations of the case loop (MediaWiki fall-through rules):
+    #   a bare case never returns; it latches "match" when it equals the subject and latches "default follows"
+    #   when it is #default; a latch, once set, stays set until a keyed case is reached;
+    #   a keyed case k=v returns (trimmed, expanded) v iff its key equals the subject or a bare case latched a match
+    cs.append(Contract(
+        target="parserfns:switch_fn", prop="C04", mode="value", params=dict(PF),
+        loops={"for arg in args[1:]": {"iteration_post": [
+            "implies(m is None, match_next == (match_next_at_head or (expander(arg).strip() == val)))",
+            "implies(m is None, next_val_is_default == (next_val_is_default_at_head or "
+            "(expander(arg).strip().lower() == '#default')))",
+            # a keyed case that did not return: it did not match and no bare case had matched
+            "implies(m is not None, (not match_next_at_head) and k != val)",
+            "implies(m is not None, match_next == match_next_at_head)"]}},
+        asserts={"return expander(v).strip()": ["k == val or match_next"]},
+        raises=[], result="str"))
     # undefined parameter without default stays literal
     cs.append(Contract(target="core:Wtp._unexpanded_arg", prop="C04", mode="value",
                        params={"args": "strlist", "nowiki": "const:False"},
